@@ -34,7 +34,7 @@ def generate(tier, rng):
     for _ in range(nrand):
         sc = gen.pick_scale(rng)
         if rng.random() < 0.75:
-            t = gen.random_itier(rng, long_p=0.015)
+            t = gen.random_itier(rng, long_p=0.02)
             a, b = rng.randint(-5, 70), rng.randint(-5, 70)
             if rng.random() < 0.6 and t["entries"]:
                 # put edges on entry boundaries
@@ -47,7 +47,7 @@ def generate(tier, rng):
             cases.append({"op": "icrop", "tier": t, "a": a, "b": b, "mode": rng.choice(list(MODES)),
                           "rebase": rng.random() < 0.5, "scale": sc})
         else:
-            t = gen.random_ptier(rng, distinct=rng.random() < 0.8, long_p=0.015)
+            t = gen.random_ptier(rng, distinct=rng.random() < 0.8, long_p=0.02)
             a, b = rng.randint(-5, 70), rng.randint(-5, 70)
             if t["entries"] and rng.random() < 0.5:
                 a = rng.choice(t["entries"])[0]
